@@ -3,7 +3,10 @@ package main
 import (
 	"encoding/json"
 	"fmt"
+	"net/url"
 	"reflect"
+	"sort"
+	"strings"
 
 	ap "github.com/go-ap/activitypub"
 )
@@ -120,7 +123,34 @@ func colsAfter(it ap.Item) map[string]interface{} {
 	return map[string]interface{}{"to": get("To"), "cc": get("CC"), "bto": get("Bto"), "bcc": get("BCC")}
 }
 
-func iriEq(a, b string) bool { return ap.IRI(a).Equals(ap.IRI(b), false) }
+// iriEq: the oracle's own reading of "the same addressee" (C14's key, computed with net/url and the harness'
+// path cleaner, not with the library's Equals): host with port, cleaned path and sorted query pairs, ignoring
+// scheme, letter case of host and path, trailing slash, dot segments and fragment; strings that are no
+// absolute URLs are the same when they are equal ignoring ASCII case.
+func iriEq(a, b string) bool {
+	ka, oka := refIRIKey(a)
+	kb, okb := refIRIKey(b)
+	if oka && okb {
+		return ka == kb
+	}
+	return asciiLower(a) == asciiLower(b)
+}
+
+func refIRIKey(s string) (string, bool) {
+	if i := strings.IndexByte(s, '#'); i > 0 {
+		s = s[:i]
+	}
+	u, err := url.Parse(s)
+	if err != nil || u.Scheme == "" || u.Host == "" {
+		return "", false
+	}
+	var pairs []string
+	if u.RawQuery != "" {
+		pairs = strings.Split(u.RawQuery, "&")
+		sort.Strings(pairs)
+	}
+	return asciiLower(u.Host) + "|" + asciiLower(refClean(u.Path)) + "|" + strings.Join(pairs, "&"), true
+}
 
 // scanOrder: the addressing entries in the order the property prescribes.
 func (v aValue) scanOrder() [][]*aEntry {
